@@ -327,3 +327,76 @@ OUTSIDE = ["the spatial predicate itself (sklearn tree + metric embedding; contr
 STUBS = ["SpecTree for sklearn's trees (arbitrary membership, order, distances)", "numpy.random.shuffle -> arbitrary permutation",
          "xarray / pandas run for real on concrete coordinates and times"]
 ASSUMPTIONS = ["times in K3 are concrete (milliseconds); the symbolic treatment of time differences is K2"]
+
+
+# ---- K4: the temporally pre-binned search (called directly; collocate() takes it above 1e6 candidate pairs) ----
+from datetime import timedelta as _td          # noqa: E402
+
+
+def _binned_cases(tier):
+    # seconds of the primary / secondary points (sorted, as collocate() hands them over), max_interval [s], bin_factor
+    P = [0.0, 40.0, 95.0]
+    S = [5.0, 62.0, 100.0, 124.5]        # |dt| of 5, 22, 5, 29.5 s to the nearest primaries
+    out = []
+    for bf in (1, 2, 0.5):
+        out.append((P, S[:3], 30, bf))
+    out.append((P[:2], S, 30, 1))            # more secondaries than primaries: the datasets are swapped internally
+    if tier == "thorough":
+        out += [(P, S, 30, 0.5), (P, S, 60, 0.25), ([0.0, 10.0, 20.0, 200.0], [15.0, 190.0], 12, 1)]
+    return out
+
+
+@harness("C04.binned", cases=_binned_cases,
+         expect=lambda c: ["pairs-are-what-the-bins-found", "close-in-time-pairs-are-searched"])
+def k_binned(ctx):
+    psec, ssec, mi_s, bf = ctx.case
+    n1, n2 = len(psec), len(ssec)
+    plat = np.array([10.0 + i for i in range(n1)])          # unique latitudes identify the points
+    slat = np.array([50.0 + j for j in range(n2)])
+    t0 = np.datetime64("2020-03-01T00:00:00")
+    ptime = t0 + (np.array(psec) * 1000).astype("int64").astype("timedelta64[ms]")
+    stime = t0 + (np.array(ssec) * 1000).astype("int64").astype("timedelta64[ms]")
+    tree = SpecTree(ctx)
+    rnd = SymRandom(ctx)
+    c = CL.Collocator()
+    c.bin_factor, c.magnitude_factor, c.leaf_size, c.tunnel_limit = bf, 10, 40, None
+
+    def ids_as_points(self, lat, lon):
+        return np.asarray(lat, dtype=float).reshape(-1, 1)       # the tree coordinates are the point ids
+    with _env(ctx, tree, rnd), patched((G.GeoIndex, "_to_metric", ids_as_points)):
+        pairs, dists = c.spatial_search_with_temporal_binning(
+            {"lat": plat, "lon": np.zeros(n1), "time": ptime}, {"lat": slat, "lon": np.zeros(n2), "time": stime},
+            "100 km", _td(seconds=mi_s))
+    pairs = np.asarray(pairs)
+    got = [] if pairs.size == 0 else [(int(pairs[0, k]), int(pairs[1, k])) for k in range(pairs.shape[1])]
+    want = []
+    searched = set()
+    for ch in getattr(tree, "children", []):
+        built = [float(v) for v in np.asarray(ch.built).reshape(-1)]
+        for q in ch.queries:
+            qids = [float(v) for v in np.asarray(q["X"]).reshape(-1)]
+            for (tr, j), m in q["member"].items():
+                a, b = built[tr], qids[j]
+                pi, si = (a, b) if a < 50 else (b, a)
+                pr = (int(round(pi - 10)), int(round(si - 50)))
+                searched.add(pr)
+                if bool(m):
+                    want.append(pr)
+    ctx.check("pairs-are-what-the-bins-found", sorted(got) == sorted(want), detail="got %r want %r" % (got, want))
+    ctx.check("no-pair-twice", len(set(got)) == len(got) and len(set(want)) == len(want), detail=repr(got))
+    for i in range(n1):
+        for j in range(n2):
+            if abs(psec[i] - ssec[j]) < mi_s:
+                ctx.check("close-in-time-pairs-are-searched", (i, j) in searched,
+                          detail="primary %d (t=%s) and secondary %d (t=%s) are %s s apart but never met in a bin (bin_factor %s)"
+                          % (i, psec[i], j, ssec[j], abs(psec[i] - ssec[j]), bf))
+    if pairs.size:
+        ctx.check("distances-aligned-with-pairs", len(np.asarray(dists)) == len(got))
+
+
+PLAN["quick"]["harnesses"].append("C04.binned")
+PLAN["thorough"]["harnesses"].append("C04.binned")
+BOUNDS["quick"]["pre-binned search"] = ("spatial_search_with_temporal_binning called directly on 3 x 3 and 2 x 4 points spread over several bins, "
+                                        "bin_factor in {0.5, 1, 2}, every answer of the tree in every bin")
+OUTSIDE[:] = [o for o in OUTSIDE if not o.startswith("the temporally pre-binned path")] + \
+    ["the switch to the pre-binned path inside collocate() (taken above 1e6 candidate pairs; the path itself is decided by calling it directly)"]
